@@ -1,4 +1,7 @@
 import OnlVerif.Lemmas.ResStep
+import OnlVerif.Lemmas.ConserveExamples
+import OnlVerif.Lemmas.StrandStep
+import OnlVerif.Lemmas.StrandDemo
 /-!
 # C06 — resources never exceed capacity, grant in queue order, never idle a slot
 
@@ -84,6 +87,231 @@ theorem preempt_evicts_and_interrupts (s : KState ℚ σ) (r : ResId) (e w vp : 
   unfold preemptStep
   simp only [hc, Option.any_some, hfull, decide_true, hp, Bool.and_self, if_true, hw, hlt, hproc]
 
+/-! ## ---- begin: "never strand a request" (global theorems, builder b-strand) ----
+
+Vocabulary (defined in `Lemmas/StrandDefs.lean`):
+* `AboutToAdvance s` — the agenda of `s` is empty or its next entry (`popMin`) is due strictly later than `s.now`;
+* `SInv s` — the invariant: structural well-formedness of queues/agenda plus, for every resource, "the head of the put
+  (get) queue is blocked, or a rescan `_trigger_put` (`_trigger_get`) is pending at the current instant";
+* `DReach body fuel s0 s` — `s` is reachable from `s0` by kernel steps of the program `body`, each step satisfying the
+  domain hypothesis `stepDom`: no process calls `succeed()/fail()` on a non-existent event or on a request that is still
+  waiting in a queue (such a call makes the real `_trigger_put` drop the request and stop the scan, after which the
+  property is false; it is outside "process programs using request / release / cancel / with");
+* `NoTrigCalls b` — the burst `b` contains no `succeed()/fail()` call at all (static sufficient condition). -/
+
+/-- **After a complete `_trigger_put` scan the oldest waiting request cannot be granted** (no free slot, and for a
+`PreemptiveResource` nobody it could evict): the scan grants from the head and stops only at a request that
+`_do_put` refuses; granted requests leave the queue.  `Pkg s none` is the structural part of the invariant (queued
+requests are untriggered, unprocessed request events of this resource; queues without repetitions; users within
+capacity); it holds in every reachable state (`strand_invariant_reachable`). -/
+theorem scan_leaves_head_blocked (s : KState ℚ σ) (r : ResId) (h : Pkg s none) (e : EvId)
+    (he : ((triggerPut s r).res r).putQ.head? = some e) :
+    canPut (prePut (triggerPut s r) r e) r e = false :=
+  (triggerPut_post h r).2.2.2.1 e he
+
+/-- **The invariant holds in every state every program can reach** (inside the domain): whenever the oldest waiting
+request of a resource could be granted, a rescan of its queue is pending *at the current instant* — an unprocessed
+event (a `Release`, or any `Get`) that is in the agenda with `time = now` and carries `_trigger_put` of this resource.
+Covers release, cancel, `with`-exit, eviction, for all three resource classes (and containers/stores). -/
+theorem free_slot_implies_rescan_pending (body : σ → Resume → Burst ℚ σ) (fuel : Nat) (s0 s : KState ℚ σ)
+    (h0 : SInv s0) (hr : DReach body fuel s0 s) (r : ResId) (e : EvId)
+    (he : (s.res r).putQ.head? = some e) (hfree : canPut (prePut s r e) r e = true) :
+    ∃ q ∈ s.agenda, q.time = s.now ∧ ∃ l, (s.ev q.ev).cbs = some l ∧ Cb.trigPut r ∈ l := by
+  have h := reach_sinv body fuel s0 s h0 hr
+  rcases (h.j.main r).1 with hb | hp
+  · have := hb e he
+    unfold putOk at this
+    rw [this] at hfree; cases hfree
+  · rcases hp with hp | hp
+    · cases hp
+    · exact hp
+
+/-- **Whenever the clock is about to advance, no request is waiting while a slot is free**: for every program, in every
+reachable state whose next agenda entry lies strictly in the future (or whose agenda is empty), the head of every put
+queue is a request `_do_put` would refuse in this very state. -/
+theorem no_idle_slot_at_advance (body : σ → Resume → Burst ℚ σ) (fuel : Nat) (s0 s : KState ℚ σ)
+    (h0 : SInv s0) (hr : DReach body fuel s0 s) (ha : AboutToAdvance s) (r : ResId) (e : EvId)
+    (he : (s.res r).putQ.head? = some e) : canPut (prePut s r e) r e = false :=
+  (sinv_advance (reach_sinv body fuel s0 s h0 hr) ha r).1 e he
+
+/-- **… in plain words for `Resource`, `PriorityResource`, `PreemptiveResource`**: if somebody is still queued when the
+clock advances, then all `capacity` slots are taken. -/
+theorem queue_nonempty_at_advance_implies_full (body : σ → Resume → Burst ℚ σ) (fuel : Nat) (s0 s : KState ℚ σ)
+    (h0 : SInv s0) (hr : DReach body fuel s0 s) (ha : AboutToAdvance s) (r : ResId)
+    (hk : isResKind (s.res r).kind = true) (hq : (s.res r).putQ ≠ []) :
+    ∃ c, (s.res r).capacity = some c ∧ (s.res r).users.length = c := by
+  have h := reach_sinv body fuel s0 s h0 hr
+  obtain ⟨e, rest, hqe⟩ := List.exists_cons_of_ne_nil hq
+  have hb : putOk s r e = false := (sinv_advance h ha r).1 e (by rw [hqe]; rfl)
+  have hpre := prePut_eq_of_blocked h.j.pkg r e hb
+  unfold putOk at hb
+  rw [hpre] at hb
+  have hroom : hasRoom (s.res r).capacity (s.res r).users.length = false := by
+    unfold canPut at hb
+    unfold isResKind at hk
+    cases hkk : (s.res r).kind <;> simp only [hkk] at hb hk <;> first | exact hb | exact absurd hk (by decide)
+  cases hc : (s.res r).capacity with
+  | none => rw [hc] at hroom; cases hroom
+  | some c =>
+    refine ⟨c, rfl, ?_⟩
+    have hle := h.j.pkg.usersLe r c hk hc
+    rw [hc, hasRoom_some] at hroom
+    simp only [decide_eq_false_iff_not, not_lt] at hroom
+    omega
+
+/-- **A release never waits**: when the clock is about to advance the get queue (the `Release` events) of every
+resource is empty — each release was handled within the instant it was issued. -/
+theorem releases_done_at_advance (body : σ → Resume → Burst ℚ σ) (fuel : Nat) (s0 s : KState ℚ σ)
+    (h0 : SInv s0) (hr : DReach body fuel s0 s) (ha : AboutToAdvance s) (r : ResId)
+    (hk : isResKind (s.res r).kind = true) : (s.res r).getQ = [] := by
+  have hg := (sinv_advance (reach_sinv body fuel s0 s h0 hr) ha r).2.1
+  cases hq : (s.res r).getQ with
+  | nil => rfl
+  | cons e rest =>
+    exfalso
+    have := hg e (by rw [hq]; rfl)
+    unfold getItem at this
+    unfold isResKind at hk
+    cases hkk : (s.res r).kind <;> simp only [hkk] at this hk <;> first | cases this | exact absurd hk (by decide)
+
+/-- **For programs that never call `succeed()/fail()` the domain hypothesis is automatic**: the theorem then speaks
+about plain reachability `KReach` (the relation of `users_le_capacity`). -/
+theorem no_idle_slot_at_advance_static (body : σ → Resume → Burst ℚ σ) (hb : ∀ st rs, NoTrigCalls (body st rs))
+    (fuel : Nat) (s0 s : KState ℚ σ) (h0 : SInv s0) (hr : KReach body fuel s0 s) (ha : AboutToAdvance s)
+    (r : ResId) (e : EvId) (he : (s.res r).putQ.head? = some e) : canPut (prePut s r e) r e = false :=
+  no_idle_slot_at_advance body fuel s0 s h0 (dreach_of_noTrig body hb fuel s0 s hr) ha r e he
+
+/-- **The invariant `SInv` holds in every state every program can reach** (inside the domain); in particular its
+structural part `Pkg s none`, which is what the scan post-conditions need. -/
+theorem strand_invariant_reachable (body : σ → Resume → Burst ℚ σ) (fuel : Nat) (s0 s : KState ℚ σ)
+    (h0 : SInv s0) (hr : DReach body fuel s0 s) : SInv s ∧ Pkg s none :=
+  ⟨reach_sinv body fuel s0 s h0 hr, (reach_sinv body fuel s0 s h0 hr).j.pkg⟩
+
+/-- **`run(until=number)` and `run(until=event)` enter their step loop in a state satisfying the invariant** whenever
+they are called in one (the sentinel event / the `StopSimulation` callback do not disturb it), so the theorems cover
+every split plan of `run` / `step` calls. -/
+theorem strand_invariant_at_run_start (s : KState ℚ σ) (h : SInv s) :
+    (∀ at_ : ℚ, s.now < at_ →
+      SInv ((((s.newEv { kind := .sentinel, cbs := some [], out := some (.ok .none) }).1.scheduleAt s.events.size URGENT
+        at_)).addCb s.events.size .stop)) ∧
+    (∀ e, SInv (s.addCb e .stop)) :=
+  ⟨fun at_ h1 => sinv_untilTime_start h at_ h1, fun e => sinv_untilEvent_start h e⟩
+
+/-- **The invariant holds initially**: in a fresh environment (nothing scheduled, resources idle), and it survives the
+API calls that set a run up (`env.process(...)`, `resource.request()` …), so `SInv s0` is satisfiable by every
+start state the harness uses. -/
+theorem strand_invariant_initially (t0 : ℚ) (rs : Array ResRec)
+    (h : ∀ r, (rs.getD r default).putQ = [] ∧ (rs.getD r default).getQ = [] ∧ (rs.getD r default).users = [])
+    (setup : List (Call ℚ σ)) (hs : ∀ c ∈ setup, (∀ e v, c ≠ .succeed e v) ∧ (∀ e x, c ≠ .fail e x)) :
+    SInv (setup.foldl (fun s c => (doCall s 0 c).1) ({ now := t0, resources := rs } : KState ℚ σ)) := by
+  have base : SInv ({ now := t0, resources := rs } : KState ℚ σ) := sinv_init t0 rs h
+  generalize ({ now := t0, resources := rs } : KState ℚ σ) = s at base
+  induction setup generalizing s with
+  | nil => exact base
+  | cons c cs ih =>
+    simp only [List.foldl_cons]
+    refine ih (fun c' hc' => hs c' (List.mem_cons_of_mem _ hc')) _ ?_
+    exact doCall_sinv base 0 c (callDom_of_noTrig s c (hs c List.mem_cons_self).1 (hs c List.mem_cons_self).2)
+
+/-! non-vacuity of the block above: a capacity-1 `Resource` with one user (event 0, granted and processed) and one
+queued request (event 1) at a moment when nothing is scheduled: the invariant holds, the clock is about to advance,
+the queue is not empty — and indeed the slot is taken. -/
+example :
+    let s : KState ℚ Unit :=
+      { now := 0,
+        events := #[{ kind := .put 0, cbs := none, out := some (.ok .none), req := some { res := 0, time := 0 } },
+                    { kind := .put 0, cbs := some [.trigGet 0], out := none, req := some { res := 0, time := 0 } }],
+        resources := #[{ kind := .resource, capacity := some 1, users := [0], putQ := [1] }] }
+    SInv s ∧ AboutToAdvance s ∧ (s.res 0).putQ = [1] ∧ canPut (prePut s 0 1) 0 1 = false := by
+  intro s
+  have hev : ∀ x, s.ev x = if x = 0 then
+        { kind := .put 0, cbs := none, out := some (.ok .none), req := some { res := 0, time := 0 } }
+      else if x = 1 then
+        { kind := .put 0, cbs := some [.trigGet 0], out := none, req := some { res := 0, time := 0 } }
+      else default := by
+    intro x
+    match x with
+    | 0 => rfl
+    | 1 => rfl
+    | n + 2 => simp [s, KState.ev]
+  have hres : ∀ r, s.res r = if r = 0 then { kind := .resource, capacity := some 1, users := [0], putQ := [1] }
+      else default := by
+    intro r
+    match r with
+    | 0 => rfl
+    | n + 1 => simp [s, KState.res]
+  have hblocked : canPut (prePut s 0 1) 0 1 = false := by
+    rw [prePut_of_ne s 0 1 (by rw [hres]; simp)]
+    unfold canPut; rw [hres]; rfl
+  refine ⟨⟨⟨(by intro q hq; cases hq), (by intro q hq; cases hq), List.Pairwise.nil⟩, ⟨⟨?_, ?_, ?_, ?_, ?_, ?_, ?_, ?_, ?_⟩, ?_, ?_⟩⟩,
+    (by intro q rest hq; cases hq), (by rw [hres]; rfl), hblocked⟩
+  · intro q hq; cases hq
+  · intro p hp; exact absurd rfl hp
+  · intro x l c hl hm
+    rw [hev] at hl
+    split at hl
+    · cases hl
+    · split at hl
+      · simp only [Option.some.injEq] at hl; subst hl; simp at hm
+      · cases hl
+  · intro r e hm
+    rw [hres] at hm
+    split at hm
+    · rename_i hr; subst hr
+      simp only [List.mem_singleton] at hm; subst hm
+      rw [hev]; exact ⟨rfl, Or.inl rfl, [.trigGet 0], rfl, List.mem_singleton.mpr rfl⟩
+    · cases hm
+  · intro r e hm
+    rw [hres] at hm
+    split at hm <;> cases hm
+  · intro r; rw [hres]; split
+    · simp
+    · exact List.nodup_nil
+  · intro r; rw [hres]; split <;> exact List.nodup_nil
+  · intro r w hm
+    rw [hres] at hm
+    split at hm
+    · simp only [List.mem_singleton] at hm; subst hm; show 0 < 2; decide
+    · cases hm
+  · intro r c hk hc
+    by_cases hr : r = 0
+    · subst hr
+      rw [hres] at hc ⊢
+      simp only [if_true, Option.some.injEq] at hc ⊢
+      subst hc; simp
+    · rw [hres, if_neg hr]; exact Nat.zero_le _
+  · intro c hc; cases hc
+  · intro r
+    refine ⟨Or.inl ?_, Or.inl ⟨?_, ?_⟩⟩
+    · intro e he
+      rw [hres] at he
+      split at he
+      · rename_i hr; subst hr
+        simp only [List.head?_cons, Option.some.injEq] at he; subst he
+        exact hblocked
+      · cases he
+    · intro e he
+      rw [hres] at he
+      split at he <;> cases he
+    · intro _ e he
+      rw [hres] at he
+      split at he <;> cases he
+
+/-! non-vacuity by a run (`Lemmas/StrandDemo.lean`): two processes `request → hold 5 → release` on a capacity-1
+`Resource`; after three kernel steps of the model the first one holds the slot and sleeps, the second one is queued, the
+only agenda entry is the timeout at 5.  All hypotheses of the theorems above hold, and the conclusion is not empty. -/
+example : SInv Demo.resS0 ∧ DReach Demo.resBody 3 Demo.resS0 Demo.resS3 ∧ AboutToAdvance Demo.resS3 ∧
+    (Demo.resS3.res 0).putQ ≠ [] ∧ ∃ c, (Demo.resS3.res 0).capacity = some c ∧ (Demo.resS3.res 0).users.length = c := by
+  have hq : (Demo.resS3.res 0).putQ ≠ [] := by
+    intro h
+    have := Demo.resS3_queue.1
+    rw [h] at this; cases this
+  exact ⟨Demo.resS0_sinv, Demo.resS3_reach, Demo.resS3_advance, hq,
+    queue_nonempty_at_advance_implies_full _ 3 _ _ Demo.resS0_sinv Demo.resS3_reach Demo.resS3_advance 0
+      Demo.resS3_queue.2 hq⟩
+
+/-! ## ---- end: "never strand a request" ---- -/
+
 /-! non-vacuity: a capacity-1 resource satisfies the initial invariant -/
 example : ResInv ({ now := 0, resources := #[{ kind := .resource, capacity := some 1 }] } : KState ℚ Unit) := by
   apply init_resInv
@@ -93,5 +321,103 @@ example : ResInv ({ now := 0, resources := #[{ kind := .resource, capacity := so
   · have : (#[({ kind := .resource, capacity := some 1 } : ResRec)].getD r default) = default := by
       simp [Array.getD, show ¬ r < 1 by omega]
     rw [this]; simp [default]
+
+section ConserveBlock
+open Conserve
+
+/-! ## ===== b-conserve: global queue-order theorems (whole runs, every program) — BEGIN =====
+
+Vocabulary (`Lemmas/Conserve*.lean`).  A request event is *granted* exactly when it is triggered (`out ≠ none`).
+`WF s0`: the initial state is well-formed (`WF.init`: every fresh environment is).  `SafeReach body fuel s s'`: `s'` is
+reachable from `s` by kernel steps of program `body` during which no `succeed`/`fail` call of the program targets a
+request event (outside the domain: the real `_do_put` then raises "already triggered"); every run of a program that never
+calls `succeed`/`fail` qualifies (`safeReach_of_noTrig`).  `Before l a b`: `a` stands before `b` in the list `l`.
+`rankLt s prio a b`: `a` ranks strictly before `b` — creation order (event ids) for `Resource`; for the two priority
+classes (`prio = true`) the key `(priority, request time, preempting-first)` compared as Python compares the tuple,
+then creation order.  `AUnit t t'`: one atomic unit of the model (bookkeeping, a fresh event, an outcome written to a
+non-request event, `grantPut`, `grantGet`, `newPut`, `newGet`, `cancelPut`, `cancelGet`), each with the guard under which
+the model executes it; `UnitSeq`: finite sequences of units. -/
+
+/-- **The request queue is always sorted by rank** — arrival order for `Resource`; (priority, request time,
+preempting-first, arrival) for `PriorityResource` and `PreemptiveResource` — **and holds only waiting (untriggered)
+requests of this resource, each once**, in every state any program can reach. -/
+theorem queue_sorted_by_rank (body : σ → Resume → Burst ℚ σ) (fuel : Nat) (s0 s : KState ℚ σ)
+    (hW : WF s0) (hS : QSorted s0) (hr : SafeReach body fuel s0 s) (r : ResId) :
+    (s.res r).putQ.Pairwise (rankLt s (isPrioKind (s.res r).kind)) ∧ (s.res r).putQ.Nodup ∧
+    ∀ e ∈ (s.res r).putQ, (s.ev e).kind = .put r ∧ (s.ev e).out = none :=
+  have hWs := (reach_base body fuel s0 s hW hr).2
+  ⟨((reach_queue body fuel s0 s hW hr).2 hS).put r, hWs.putNodup r, hWs.putQ r⟩
+
+/-- **Requests are granted in queue order, along whole runs**: if `a` stands before `b` in the queue in some reachable
+state `s`, then in every later state `s'` in which `b` has been granted, `a` has been granted too — or was cancelled
+(it left the queue without being granted; it then is never granted). -/
+theorem granted_in_queue_order (body : σ → Resume → Burst ℚ σ) (fuel : Nat) (s0 s s' : KState ℚ σ)
+    (hW : WF s0) (hr0 : SafeReach body fuel s0 s) (hr : SafeReach body fuel s s') (r : ResId) (a b : EvId)
+    (hab : Before (s.res r).putQ a b) (hb : (s'.ev b).out ≠ none) :
+    (s'.ev a).out ≠ none ∨ (a ∉ (s'.res r).putQ ∧ (s'.ev a).out = none) :=
+  have hWs := (reach_base body fuel s0 s hW hr0).2
+  ((reach_queue body fuel s s' hWs hr).1.put r).order trivial a b hab hb
+
+/-- **A later-ranked request is never granted ahead of an earlier-ranked waiting one**: for two waiting requests with
+`a` ranked strictly before `b` (rank as in `queue_sorted_by_rank`), whenever `b` has been granted later on, `a` has been
+granted as well, unless it was cancelled. -/
+theorem never_granted_ahead_of_earlier_ranked (body : σ → Resume → Burst ℚ σ) (fuel : Nat) (s0 s s' : KState ℚ σ)
+    (hW : WF s0) (hS : QSorted s0) (hr0 : SafeReach body fuel s0 s) (hr : SafeReach body fuel s s') (r : ResId) (a b : EvId)
+    (ha : a ∈ (s.res r).putQ) (hbq : b ∈ (s.res r).putQ) (hrank : rankLt s (isPrioKind (s.res r).kind) a b)
+    (hb : (s'.ev b).out ≠ none) :
+    (s'.ev a).out ≠ none ∨ (a ∉ (s'.res r).putQ ∧ (s'.ev a).out = none) := by
+  have hsorted := ((reach_queue body fuel s0 s hW hr0).2 hS).put r
+  have hab : Before (s.res r).putQ a b := before_of_rel (fun _ _ h => rankLt_asymm h) hsorted ha hbq hrank
+  exact granted_in_queue_order body fuel s0 s s' hW hr0 hr r a b hab hb
+
+/-- **Waiting requests keep their relative order, and a cancelled request never comes back**: the other two clauses of
+the order relation between any two states of a run. -/
+theorem queue_order_is_stable (body : σ → Resume → Burst ℚ σ) (fuel : Nat) (s0 s s' : KState ℚ σ)
+    (hW : WF s0) (hr0 : SafeReach body fuel s0 s) (hr : SafeReach body fuel s s') (r : ResId) :
+    (∀ a b, Before (s.res r).putQ a b → a ∈ (s'.res r).putQ → b ∈ (s'.res r).putQ → Before (s'.res r).putQ a b) ∧
+    (∀ a, (s.ev a).kind = .put r → a ∉ (s.res r).putQ → (s.ev a).out = none →
+      a ∉ (s'.res r).putQ ∧ (s'.ev a).out = none) :=
+  have hWs := (reach_base body fuel s0 s hW hr0).2
+  have h := (reach_queue body fuel s s' hWs hr).1.put r
+  ⟨h.keep, h.dead⟩
+
+/-- **Every run is a finite sequence of atomic units** (so statements about "the moment of a grant" make sense). -/
+theorem run_is_unit_sequence (body : σ → Resume → Burst ℚ σ) (fuel : Nat) (s0 s : KState ℚ σ)
+    (hW : WF s0) (hr : SafeReach body fuel s0 s) : UnitSeq s0 s :=
+  reach_units body fuel s0 s hW hr
+
+/-- **Requests are granted one by one, each while it is the first of the queue**: the only atomic unit that triggers a
+waiting request `e` of resource `r` is `_do_put` on `e`, executed while `e` is the head of the queue and a slot is free
+(`canPut`, evaluated after the eviction step of a `PreemptiveResource`). -/
+theorem request_granted_only_at_head (t t' : KState ℚ σ) (h : AUnit t t') (r : ResId) (e : EvId)
+    (hk : (t.ev e).kind = .put r) (ho : (t.ev e).out = none) (ho' : (t'.ev e).out ≠ none) :
+    ∃ rest, (t.res r).putQ = e :: rest ∧ canPut t r e = true ∧ t' = grantPutSt t r e :=
+  h.grant_put hk ho ho'
+
+/-- **Along every run, every granted request was first in the queue at the moment of its grant**: if `e` waits in a
+reachable state `s` and has been granted in a later state `s'`, the run passed (`UnitSeq`) through a state `t` in
+which `e` headed the queue and a slot was free, and continued from the state `_do_put` produced. -/
+theorem every_grant_was_at_head (body : σ → Resume → Burst ℚ σ) (fuel : Nat) (s0 s s' : KState ℚ σ)
+    (hW : WF s0) (hr0 : SafeReach body fuel s0 s) (hr : SafeReach body fuel s s') (r : ResId) (e : EvId)
+    (hk : (s.ev e).kind = .put r) (ho : (s.ev e).out = none) (ho' : (s'.ev e).out ≠ none) :
+    ∃ t rest, UnitSeq s t ∧ UnitSeq (grantPutSt t r e) s' ∧ (t.res r).putQ = e :: rest ∧ canPut t r e = true ∧
+      (t.ev e).out = none :=
+  have hWs := (reach_base body fuel s0 s hW hr0).2
+  (reach_units body fuel s s' hWs hr).grant_put_moment hk ho ho'
+
+/-! non-vacuity: `PriorityResource(capacity=1)`; requests with priorities 2 (granted at once), 1, 0, 1, then release of
+the first.  The queue is `[prio 0, prio 1 (older), prio 1 (newer)]` = events `[4, 3, 5]`; two kernel steps later the
+release has been processed and the priority-0 request (event 4, created after event 3) has been granted first. -/
+example : WF ExPrio.s0 ∧ QSorted ExPrio.s0 ∧ SafeReach ExPrio.body 5 ExPrio.s0 ExPrio.s1 ∧
+    SafeReach ExPrio.body 5 ExPrio.s1 ExPrio.s3 :=
+  ⟨ExPrio.wf0, ExPrio.sorted0, ExPrio.reach1, ExPrio.reach13⟩
+example : (ExPrio.s1.res 0).putQ = [4, 3, 5] ∧ (ExPrio.s3.res 0).putQ = [3, 5] ∧ (ExPrio.s3.res 0).users = [4] ∧
+    ExPrio.s3.triggered 4 = true ∧ ExPrio.s3.triggered 3 = false := by decide +kernel
+example : Before [4, 3, 5] 4 3 := by unfold Before; decide
+example : rankLt ExPrio.s1 true 4 3 := by
+  unfold rankLt; simp only [if_true]; left; decide +kernel
+
+/-! ## ===== b-conserve — END ===== -/
+end ConserveBlock
 
 end C06
